@@ -185,9 +185,24 @@ pub struct Ctx {
     pub rendezvous: Mutex<Option<Arc<Rendezvous>>>,
     /// harness-internal errors (machinery, never a verdict)
     pub errors: Mutex<Vec<String>>,
+    /// injected panics carry a payload that is neither `&str` nor `String` (`std::panic::panic_any`)
+    pub typed_panics: AtomicBool,
 }
 
 pub const PANIC_MARK: &str = "HSYS-PANIC";
+
+/// Payload of an injected panic raised with `panic_any` (a type no formatting helper knows).
+pub struct TypedPanic(pub String);
+
+/// Raise the injected panic of system `id` (`what` = "fetch" / "run").
+pub fn inject_panic(ctx: &Ctx, what: &str, id: usize) -> ! {
+    let msg = format!("{} {} sys={}", PANIC_MARK, what, id);
+    if ctx.typed_panics.load(Ordering::Relaxed) {
+        std::panic::panic_any(TypedPanic(msg))
+    } else {
+        std::panic::panic_any(msg)
+    }
+}
 
 impl Ctx {
     pub fn new(n: usize, resmap: Vec<u8>) -> Arc<Ctx> {
@@ -205,6 +220,7 @@ impl Ctx {
             inner_layouts: Mutex::new(Vec::new()),
             rendezvous: Mutex::new(None),
             errors: Mutex::new(Vec::new()),
+            typed_panics: AtomicBool::new(false),
         })
     }
 
@@ -385,7 +401,7 @@ impl<'a> DynamicSystemData<'a> for HData<'a> {
         ctx.log(Ev::FetchBegin, acc.id, 0);
         if let Beh::PanicFetch(d) = ctx.beh_of(acc.id) {
             if d == u16::MAX || d == ctx.cur_dispatch() {
-                panic!("{} fetch sys={}", PANIC_MARK, acc.id);
+                inject_panic(&ctx, "fetch", acc.id);
             }
         }
         let mut reads = Vec::with_capacity(acc.fetch_reads.len());
@@ -484,7 +500,7 @@ impl<'a> System<'a> for HSys {
         ctx.runs.lock().unwrap()[id] += 1;
         match ctx.beh_of(id) {
             Beh::PanicRun(n) if n == u16::MAX || n == ctx.cur_dispatch() => {
-                panic!("{} run sys={}", PANIC_MARK, id);
+                inject_panic(&ctx, "run", id);
             }
             Beh::Rendezvous(k) => {
                 let rv = ctx.rendezvous.lock().unwrap().clone();
@@ -533,7 +549,7 @@ impl<'a> System<'a> for HSys {
         if let Beh::PanicLate(n) = ctx.beh_of(id) {
             if n == u16::MAX || n == ctx.cur_dispatch() {
                 // `d` (the guards, written through) is dropped by the unwinding
-                panic!("{} run sys={}", PANIC_MARK, id);
+                inject_panic(&ctx, "run", id);
             }
         }
     }
@@ -668,7 +684,7 @@ impl<K: CtrlKind> HCtrl<K> {
         ctx.runs.lock().unwrap()[self.id] += 1;
         match ctx.beh_of(self.id) {
             Beh::PanicRun(n) if n == u16::MAX || n == ctx.cur_dispatch() => {
-                panic!("{} run sys={}", PANIC_MARK, self.id);
+                inject_panic(&ctx, "run", self.id);
             }
             _ => {}
         }
@@ -721,7 +737,7 @@ impl<'c, K: CtrlKind> MultiDispatchController<'c> for HMulti<K> {
         drop(data);
         match ctx.beh_of(self.id) {
             Beh::PanicRun(n) if n == u16::MAX || n == ctx.cur_dispatch() => {
-                panic!("{} run sys={}", PANIC_MARK, self.id);
+                inject_panic(&ctx, "run", self.id);
             }
             _ => {}
         }
@@ -838,6 +854,60 @@ impl StaticKind for SGenReadC {
     type Data<'c> = GenRead<'c, Cell1>;
     fn touch(d: &mut Self::Data<'_>, _: u64) -> Vec<u64> {
         vec![d.v.0]
+    }
+}
+
+/// derived bundle generic over part of its data: the field `rest` is typed by a bare type parameter
+#[derive(shred::SystemData)]
+pub struct GenOver<'a, D>
+where
+    D: SystemData<'a>,
+{
+    head: Read<'a, Cell0>,
+    rest: D,
+}
+pub struct SGenOverWriteC;
+impl StaticKind for SGenOverWriteC {
+    type Data<'c> = GenOver<'c, Write<'c, Cell1>>;
+    fn touch(d: &mut Self::Data<'_>, h: u64) -> Vec<u64> {
+        let a = d.head.0;
+        let old = d.rest.0;
+        d.rest.0 = old.wrapping_mul(P).wrapping_add(mix(h, a));
+        vec![a, old]
+    }
+}
+/// derived bundle with a tuple-typed field
+#[derive(shred::SystemData)]
+pub struct DerTuple<'a> {
+    pair: (Read<'a, Cell0>, Write<'a, Cell1>),
+}
+pub struct SDerTupleAC;
+impl StaticKind for SDerTupleAC {
+    type Data<'c> = DerTuple<'c>;
+    fn touch(d: &mut Self::Data<'_>, h: u64) -> Vec<u64> {
+        let a = d.pair.0 .0;
+        let old = d.pair.1 .0;
+        d.pair.1 .0 = old.wrapping_mul(P).wrapping_add(mix(h, a));
+        vec![a, old]
+    }
+}
+/// derived bundle generated by a macro: the field type reaches the derive as a `$t:ty` fragment
+macro_rules! der_bundle {
+    ($name:ident, $lt:lifetime, $t:ty) => {
+        #[derive(shred::SystemData)]
+        pub struct $name<$lt> {
+            field: $t,
+        }
+    };
+}
+der_bundle!(DerMac, 'a, Write<'a, Cell1>);
+pub struct SDerMacWriteC;
+impl StaticKind for SDerMacWriteC {
+    type Data<'c> = DerMac<'c>;
+    fn touch(d: &mut Self::Data<'_>, h: u64) -> Vec<u64> {
+        let old = d.field.0;
+        d.field.0 = old.wrapping_mul(P).wrapping_add(h);
+        vec![old]
     }
 }
 
